@@ -141,7 +141,12 @@ def gen_history(rng, f):
     # the grading script made a (passing) run-time assertion before it separated the file: the assertion tool then already listens
     # to the events the sections use
     before = 'assertion-before-separating' if entry == 'separate' and rng.random() < 0.3 else None
-    return {'mode': mode, 'entry': entry, 'ops': ops, 'past': past, 'ending': ending, 'before': before}
+    # the grading script looks at another text for a moment (set_source of a scratch file) and comes back with restore_code(),
+    # inside a section: what is reported afterwards still carries whole-file lines (seeded C17-19)
+    # (set_source() of a text without sections drops the tool's list of sections - that is what its 'sections=False' says - so the
+    # detour is made in the last section only, and only in histories that do not ask for sections past the end afterwards)
+    detours = [k == n_sections - 1 and past == 0 and rng.random() < 0.4 for k in range(n_sections)]
+    return {'mode': mode, 'entry': entry, 'ops': ops, 'past': past, 'ending': ending, 'before': before, 'detours': detours}
 
 
 def check(ctx, case):
@@ -249,6 +254,19 @@ def check(ctx, case):
         except SyntaxError:
             parses = False
         tools = h['ops'][k] if k < len(h['ops']) else []
+        if parses and k < len(h.get('detours') or []) and h['detours'][k]:
+            from pedal.source.source import restore_code
+            try:
+                set_source("scratch_value = 1\nprint(scratch_value)\n", filename='scratch.py')
+                restore_code()
+            except Exception as e:
+                ctx.violation('C17|tool-raised|set_source-then-restore_code|%s' % type(e).__name__, dict(case, upto=k), traceback.format_exc()[-500:])
+                return
+            ctx.count('detours_through_another_text')
+            if report.submission.main_code != want_code:
+                ctx.violation('C17|section-text-wrong|after-restore_code', dict(case, upto=k),
+                              'after set_source(scratch) and restore_code() the code is %r, the section is %r' % (report.submission.main_code[:200], want_code[:200]))
+                return
         for tool in tools:
             n0 = len(report.feedback)
             try:
